@@ -1008,3 +1008,113 @@ Proof.
       apply Qlt_shift_div_l; [reflexivity|]. lra.
     + apply dy_between_loop_sound; assumption.
 Qed.
+
+(* ---- integer n-th root and the dyadic root approximation (used by positive_root, C07) *)
+
+Lemma iroot_fuel_spec fuel : forall n a lo hi,
+  0 <= lo < hi -> lo ^ Z.of_N n <= a < hi ^ Z.of_N n -> hi - lo <= 2 ^ Z.of_nat fuel ->
+  let r := iroot_fuel fuel n a lo hi in r ^ Z.of_N n <= a < (r + 1) ^ Z.of_N n /\ lo <= r < hi.
+Proof.
+  induction fuel as [|f IH]; intros n a lo hi Hlh Ha Hw; cbn [iroot_fuel].
+  - cbn in Hw. assert (hi = lo + 1) by lia. subst hi. cbv zeta. split; [assumption|lia].
+  - destruct (hi - lo <=? 1) eqn:E1.
+    + apply Z.leb_le in E1. assert (hi = lo + 1) by lia. subst hi. cbv zeta. split; [assumption|lia].
+    + apply Z.leb_gt in E1.
+      assert (Hp : 2 ^ Z.of_nat (S f) = 2 * 2 ^ Z.of_nat f) by (rewrite Nat2Z.inj_succ, Z.pow_succ_r; lia).
+      set (m := (lo + hi) / 2) in *.
+      assert (Hm2 : 2 * m <= lo + hi < 2 * m + 2) by (unfold m; pose proof (Z.div_mod (lo + hi) 2 ltac:(lia)); pose proof (Z.mod_pos_bound (lo + hi) 2 ltac:(lia)); lia).
+      destruct (m ^ Z.of_N n <=? a) eqn:E2.
+      * apply Z.leb_le in E2.
+        destruct (IH n a m hi) as [A B]; [lia|lia|lia|]. cbv zeta. split; [exact A|lia].
+      * apply Z.leb_gt in E2.
+        destruct (IH n a lo m) as [A B]; [lia|lia|lia|]. cbv zeta. split; [exact A|lia].
+Qed.
+
+Lemma iroot_spec n a : 0 < a -> (0 < n)%N ->
+  iroot n a ^ Z.of_N n <= a < (iroot n a + 1) ^ Z.of_N n /\ 0 <= iroot n a.
+Proof.
+  intros Ha Hn. unfold iroot. replace (a <=? 0) with false by (symmetry; apply Z.leb_gt; assumption).
+  set (l := Z.log2 a). set (N := Z.of_N n).
+  assert (HN : 0 < N) by (unfold N; lia).
+  assert (Hl : 0 <= l) by apply Z.log2_nonneg.
+  destruct (Z.log2_spec a Ha) as [L1 L2]. fold l in L1, L2.
+  set (e := l / N + 1).
+  assert (He : 0 < e) by (unfold e; pose proof (Z.div_pos l N Hl HN); lia).
+  assert (Hpow : pow2 (Z.to_N e) = 2 ^ e) by (unfold pow2; rewrite Z2N.id by lia; reflexivity).
+  fold N. fold e. rewrite Hpow.
+  assert (HeN : l + 1 <= e * N).
+  { unfold e. pose proof (Z.div_mod l N ltac:(lia)). pose proof (Z.mod_pos_bound l N HN). nia. }
+  assert (Hhi : a < (2 ^ e) ^ N).
+  { rewrite <- Z.pow_mul_r by lia. apply Z.lt_le_trans with (2 ^ (l + 1)); [replace (l + 1) with (Z.succ l) by lia; assumption|].
+    apply Z.pow_le_mono_r; lia. }
+  destruct (iroot_fuel_spec (S (Z.to_nat (l + 2))) n a 0 (2 ^ e)) as [A B].
+  - split; [lia|apply Z.pow_pos_nonneg; lia].
+  - split; [|exact Hhi]. fold N. rewrite Z.pow_0_l by lia. lia.
+  - rewrite Z.sub_0_r. apply Z.pow_le_mono_r; [lia|].
+    rewrite Nat2Z.inj_succ, Z2Nat.id by lia.
+    assert (e <= l + 1); [|lia]. unfold e.
+    assert (l / N <= l); [|lia]. apply Z.div_le_upper_bound; [lia|]. nia.
+  - fold N in A. split; [exact A|lia].
+Qed.
+
+Lemma Qle_frac a b c d : 0 < b -> 0 < d ->
+  ((inject_Z a / inject_Z b <= inject_Z c / inject_Z d)%Q <-> a * d <= c * b).
+Proof.
+  intros Hb Hd. unfold Qle, Qdiv, Qmult, Qinv. cbn [Qnum Qden inject_Z].
+  destruct b as [|pb|pb]; try lia. destruct d as [|pd|pd]; try lia.
+  cbn [Qnum Qden]. rewrite !Z.mul_1_r, !Pos.mul_1_l. reflexivity.
+Qed.
+
+Lemma QofD_pow x m (n : N) : (QofD (mkDy x m) ^ Z.of_N n == inject_Z (x ^ Z.of_N n) / inject_Z (pow2 (m * n)))%Q.
+Proof.
+  unfold QofD. cbn [da dn]. rewrite Qdiv_power. rewrite pow2_mul.
+  rewrite !Zpower_Qpower by lia. reflexivity.
+Qed.
+
+(* the repaired dy_root_approx brackets the n-th root: the floor result is below, the ceiling result above,
+   and `exact` means the result's n-th power IS the operand *)
+Lemma dy_root_approx_spec a n prec ceil r ex : 0 < da a -> (0 < n)%N ->
+  dy_root_approx a n prec ceil = (r, ex) ->
+  dy_wf r /\
+  (if ceil then (QofD a <= QofD r ^ Z.of_N n)%Q else (QofD r ^ Z.of_N n <= QofD a)%Q) /\
+  (ex = true -> (QofD r ^ Z.of_N n == QofD a)%Q).
+Proof.
+  intros Ha Hn. unfold dy_root_approx.
+  replace (da a =? 0) with false by (symmetry; apply Z.eqb_neq; lia).
+  set (k0 := if (dn a <? prec)%N then prec else dn a).
+  set (k := (if (k0 mod n =? 0)%N then k0 else k0 + (n - k0 mod n))%N).
+  assert (Hk0 : (dn a <= k0)%N) by (unfold k0; destruct (dn a <? prec)%N eqn:E; [apply N.ltb_lt in E|]; lia).
+  assert (Hkn : (k = (k / n) * n)%N /\ (dn a <= k)%N).
+  { unfold k. pose proof (N.div_mod k0 n ltac:(lia)) as D. pose proof (N.mod_lt k0 n ltac:(lia)) as M.
+    destruct (k0 mod n =? 0)%N eqn:E.
+    - apply N.eqb_eq in E. split; [|lia]. rewrite E, N.add_0_r in D. lia.
+    - apply N.eqb_neq in E. split; [|lia].
+      assert (Hq : (k0 + (n - k0 mod n) = (k0 / n + 1) * n)%N) by lia.
+      rewrite Hq. rewrite N.div_mul by lia. reflexivity. }
+  destruct Hkn as [Hkm Hak]. set (m := (k / n)%N) in *.
+  set (x := da a * pow2 (k - dn a)).
+  assert (Hx : 0 < x) by (unfold x; pose proof (pow2_pos (k - dn a)); nia).
+  destruct (iroot_spec n x Hx Hn) as [[R1 R2] R0].
+  set (rt := iroot n x) in *.
+  intros H. injection H as Hr Hex.
+  (* value of the un-normalised result *)
+  set (r' := if ceil && negb (rt ^ Z.of_N n =? x) then rt + 1 else rt) in *.
+  destruct (dy_normalize_spec (mkDy r' m)) as [W V]. rewrite Hr in W, V.
+  split; [exact W|].
+  assert (Hval : (QofD r ^ Z.of_N n == inject_Z (r' ^ Z.of_N n) / inject_Z (pow2 k))%Q).
+  { rewrite V. rewrite QofD_pow. rewrite <- Hkm. reflexivity. }
+  assert (Hk2 : pow2 k = pow2 (k - dn a) * pow2 (dn a)) by (rewrite <- pow2_add; f_equal; lia).
+  pose proof (pow2_pos k) as Pk. pose proof (pow2_pos (dn a)) as Pa. pose proof (pow2_pos (k - dn a)) as Pka.
+  split.
+  - destruct ceil; cbn [andb] in r'.
+    + rewrite Hval. unfold QofD. apply Qle_frac; try assumption.
+      unfold r'. destruct (rt ^ Z.of_N n =? x) eqn:E; cbn [negb].
+      * apply Z.eqb_eq in E. rewrite E. unfold x. rewrite Hk2. nia.
+      * assert (x <= (rt + 1) ^ Z.of_N n) by lia. unfold x in H. rewrite Hk2. nia.
+    + rewrite Hval. unfold QofD. apply Qle_frac; try assumption.
+      unfold r'. unfold x in R1. rewrite Hk2. nia.
+  - intros Hexact. rewrite <- Hex in Hexact. apply Z.eqb_eq in Hexact.
+    rewrite Hval. unfold QofD.
+    assert (Er : r' = rt) by (unfold r'; rewrite Hexact, Z.eqb_refl; destruct ceil; reflexivity).
+    rewrite Er, Hexact. unfold x. rewrite Hk2, !inject_Z_mult. field. split; apply pow2_nz.
+Qed.
